@@ -92,6 +92,9 @@ class ChunkedTransferReader(object):
 
         newline_data = yield from self._connection.readline()
 
+        if not newline_data.endswith(b'\n'):
+            raise NetworkError('Connection closed.')
+
         if len(newline_data) > 2:
             # Should be either CRLF or LF
             # This could our problem or the server's problem
@@ -116,6 +119,9 @@ class ChunkedTransferReader(object):
 
         while True:
             trailer_data = yield from self._connection.readline()
+
+            if not trailer_data.endswith(b'\n'):
+                raise NetworkError('Connection closed.')
 
             trailer_data_list.append(trailer_data)
 
